@@ -188,9 +188,10 @@ def main(argv=None):
         if plan is not None and not plan.get("warmup_only") and n < (3 if tier == "thorough" else 2) \
                 and hasattr(orch.engine_module(e), "shrink_candidates"):
             try:
+                fast = bool(os.environ.get("TSIM_STOP_AT_FIRST"))
                 plan, tried = orch.minimise(e, plan, (prop, v["oracle"]),
-                                            budget=400 if tier == "thorough" else 150,
-                                            wall_s=300 if tier == "thorough" else 45)
+                                            budget=20 if fast else 400 if tier == "thorough" else 150,
+                                            wall_s=15 if fast else 300 if tier == "thorough" else 45)
             except Exception as ex:
                 print(f"  (minimisation failed: {ex!r})")
                 plan = rec["plan"]
